@@ -118,18 +118,94 @@ EPOCH_TOL = Fraction(86400, 10**8) / 2  # half of 1e-8 day, in seconds
 # ------------------------------------------------------------------ text_roundtrip
 
 
+CONTAINERS = ["str", "str", "str-newline", "crlf", "trailing-blanks", "list", "tuple", "zero-name", "padded-name",
+              "blank-name-line"]
+CLONES = ["none", "none", "none", "copy.copy", "deepcopy", "pickle"]
+
+
+@st.composite
+def spellings(draw):
+    """How the same TLE text is handed over, and what happened to the Tle object before it is used."""
+    sp = dict(container=draw(st.sampled_from(CONTAINERS)), clone=draw(st.sampled_from(CLONES)),
+              orbit_clone=draw(st.sampled_from(CLONES + ["copy"])))
+    if draw(st.integers(0, 3)) == 0:
+        sp["kwargs"] = {"source": "celestrak", "rank": draw(st.integers(0, 9))}
+    return sp
+
+
+def _clone(obj, how):
+    import copy
+    import pickle
+
+    if how == "copy":
+        return obj.copy()
+    if how == "copy.copy":
+        return copy.copy(obj)
+    if how == "deepcopy":
+        return copy.deepcopy(obj)
+    if how == "pickle":
+        return pickle.loads(pickle.dumps(obj))
+    return obj
+
+
+def build_tle(f, sp):
+    """The Tle object of field set `f`, the text being handed over as `sp` says (every spelling is one
+    the unchanged library accepts: str, with a final newline, CRLF line ends, trailing blanks, list of
+    lines, tuple of the two lines, name line written '0 NAME' / padded with blanks / empty), then cloned."""
+    from beyond.io.tle import Tle
+
+    sp = sp or {}
+    l1, l2 = tf.format_lines(f)
+    name = f.get("name")
+    c = sp.get("container", "str")
+    lines = ([name] if name else []) + [l1, l2]
+    if c == "zero-name" and name:
+        lines[0] = "0 " + name
+    elif c == "padded-name" and name:
+        lines[0] = "  " + name + " \t"
+    elif c == "blank-name-line" and not name:
+        lines = [""] + lines
+    if c == "list":
+        arg = list(lines)
+    elif c == "tuple" and not name:
+        arg = tuple(lines)
+    elif c == "crlf":
+        arg = "\r\n".join(lines) + "\r\n"
+    elif c == "trailing-blanks":
+        arg = "\n".join(ln + "  " for ln in lines)
+    elif c == "str-newline":
+        arg = "\n".join(lines) + "\n"
+    else:
+        arg = "\n".join(lines)
+    kw = sp.get("kwargs") or {}
+    tle = Tle(arg, **kw)
+    if kw and tle.kwargs != kw:
+        raise Violation("field:kwargs", f"Tle(text, **{kw}).kwargs is {tle.kwargs!r}")
+    tle = _clone(tle, sp.get("clone", "none"))
+    if kw and tle.kwargs != kw:
+        raise Violation("field:kwargs", f"after {sp.get('clone')}: kwargs {tle.kwargs!r}, were {kw!r}")
+    return tle
+
+
+def spelling_classes(sp):
+    sp = sp or {}
+    return [f"text:{sp.get('container', 'str')}", f"tle-clone:{sp.get('clone', 'none')}"] + (
+        ["tle-kwargs"] if sp.get("kwargs") else [])
+
+
 def check_text_roundtrip(case):
     from beyond.io.tle import Tle
 
     f = case["tle"]
     text = tf.format_text(f)
-    tle = Tle(text)
+    tle = build_tle(f, case.get("spell"))
     d = text_diff(text, str(tle))
     if d:
         raise Violation(f"str:{d[0]}", f"str(Tle(text)) != text: {d[1]}")
     orb = tle.orbit()
     if case.get("via") == "copy":
         orb = orb.copy()
+    orb = _clone(orb, (case.get("spell") or {}).get("orbit_clone", "none"))
     scale = case.get("scale", "UTC")
     if scale != "UTC":
         # the same instant under another label: the epoch of a TLE is its UTC reading
@@ -142,7 +218,8 @@ def check_text_roundtrip(case):
     if d:
         raise Violation(f"rewrite:{d[0]}", d[1] + (f" [orbit date labelled {scale}]" if scale != "UTC" else ""), field=d[0])
     day_f = f["eday"] % 10**8
-    cls = gt.classes(f) + [f"scale:{scale}"]
+    cls = gt.classes(f) + [f"scale:{scale}"] + spelling_classes(case.get("spell")) + [
+        f"orbit-clone:{(case.get('spell') or {}).get('orbit_clone', 'none')}"]
     if min(day_f, 10**8 - day_f) <= 162000:
         cls.append("epoch-within-140s-of-midnight")
         if f["eday"] < 2 * 10**8 or f["eday"] // 10**8 >= 365:
@@ -156,7 +233,7 @@ SCALES = ["UTC", "UTC", "TT", "TDB", "GPS", "TAI", "UT1"]
 @st.composite
 def rt_case(draw):
     return dict(tle=draw(gt.fields(canonical=True)), via=draw(st.sampled_from(["direct", "direct", "copy"])),
-                scale=draw(st.sampled_from(SCALES)))
+                scale=draw(st.sampled_from(SCALES)), spell=draw(spellings()))
 
 
 # ------------------------------------------------------------------ fields
@@ -168,7 +245,7 @@ def check_fields(case):
 
     f = case["tle"]
     text = tf.format_text(f)
-    tle = Tle(text)
+    tle = build_tle(f, case.get("spell"))
     ex = tf.expected(f)
     worst = [0.0]
 
@@ -218,12 +295,12 @@ def check_fields(case):
     if abs(oerr) > EPOCH_TOL:
         raise Violation("field:orbit-date", f"orbit().date {orb.date} is {float(oerr):.6g} s from the text")
     cls = gt.classes(f) + (["non-canonical"] if f.get("style") or f.get("cls", "U") != "U" or f.get("etype") else [])
-    return dict(nt=gt.nontrivial(f), cls=cls, ratio=worst[0])
+    return dict(nt=gt.nontrivial(f), cls=cls + spelling_classes(case.get("spell")), ratio=worst[0])
 
 
 @st.composite
 def fields_case(draw):
-    return dict(tle=draw(gt.fields(canonical=draw(st.integers(0, 2)) == 0)))
+    return dict(tle=draw(gt.fields(canonical=draw(st.integers(0, 2)) == 0)), spell=draw(spellings()))
 
 
 # ------------------------------------------------------------------ writer
@@ -295,7 +372,11 @@ def writer_case(draw, real_eop=False):
     else:
         e = draw(_f(0, 0.9))
     form = draw(st.sampled_from(FORMS))
-    frame = draw(st.sampled_from(["TEME", "TEME", "EME2000"]))
+    frame = draw(st.sampled_from(["TEME", "TEME", "TEME", "EME2000", "EME2000", "GCRF", "MOD", "TOD", "ITRF", "PEF"]))
+    if frame in ("ITRF", "PEF"):
+        # element forms are not meaningful in a rotating frame (the osculating conic of the relative velocity
+        # is another curve, hyperbolic for high orbits): a state held there is held as position / velocity
+        form = "cartesian"
     wind = 0 if (form, frame) != ("tle", "TEME") else draw(st.sampled_from([0, 0, 1, -1, 2]))
     el = dict(
         i=draw(st.one_of(_f(0, 180), st.sampled_from([0.0, 180.0, 90.0, 0.00005, 0.00004999, 179.99995]))),
@@ -329,7 +410,8 @@ def writer_case(draw, real_eop=False):
                                  st.sampled_from([0.0, 0.1, -0.1, 0.5, 0.099999996, 4e-9, -4e-9, 0.01]))),
         nddot_sixth=draw(_expfloat()),
         bstar=draw(_expfloat()),
-        via=draw(st.sampled_from(["attr", "kwarg"])),
+        via=draw(st.sampled_from(["attr", "kwarg", "both", "absent"])),
+        propagator=draw(st.sampled_from(["Sgp4", "Sgp4", "Kepler", "J2", None])),
     )
     return dict(el=el, form=form, frame=frame, year=year, doy=doy, micro=micro, meta=meta, eclass=eclass,
                 scale=draw(st.sampled_from(SCALES)))
@@ -360,8 +442,14 @@ def check_writer(case):
         data.update(norad_id=norad, cospar_id=cospar)
         if meta["name"]:
             data["name"] = meta["name"]
+    elif meta["via"] == "absent":
+        # neither the orbit nor the call names the object: the lines must still be well formed
+        pass
     else:
-        kwargs = dict(norad_id=norad, cospar_id=cospar, name=meta["name"])
+        kwargs = dict(norad_id=norad, cospar_id=cospar, name=meta["name"] or "")
+        if meta["via"] == "both":
+            # the orbit carries other identifiers: the arguments of the call are the ones asked for
+            data.update(norad_id=(meta["norad"] + 1) % 100000, cospar_id="1961-999ZZZ", name="DECOY")
     date = Date(epoch)
     scale = case.get("scale", "UTC")
     relabel_error = 0.0
@@ -373,10 +461,15 @@ def check_writer(case):
         relabel_error = abs((date.change_scale("UTC").datetime - epoch).total_seconds())
         if relabel_error > 1e-6:
             return dict(nt=False, cls=[f"scale:{scale}", "relabel-moves-the-instant(C03)"])
-    orb = Orbit(coords, date, "TLE", "TEME", "Sgp4", **data)
+    orb = Orbit(coords, date, "TLE", "TEME", meta.get("propagator", "Sgp4"), **data)
     native = case["form"] == "tle" and case["frame"] == "TEME"
     if not native:
-        orb = orb.copy(form=case["form"], frame=case["frame"])
+        if case["frame"] in ("ITRF", "PEF"):
+            # position / velocity first, then the rotating frame (copy(form=, frame=) changes the frame first,
+            # i.e. while still in element form: NaN for orbits whose relative motion is hyperbolic)
+            orb = orb.copy(form="cartesian").copy(frame=case["frame"])
+        else:
+            orb = orb.copy(form=case["form"], frame=case["frame"])
         ref = np.asarray(orb.copy(form="TLE", frame="TEME").base, float)
     else:
         ref = np.asarray(coords, float)
@@ -396,7 +489,7 @@ def check_writer(case):
         p = tf.parse_lines(*lines)
     except tf.FormatError as exc:
         raise Violation("writer:format", f"{exc}: {lines}") from None
-    want_name = meta["name"] or ""
+    want_name = "" if meta["via"] == "absent" else (meta["name"] or "")
     if str(tle) != (f"{want_name}\n" if want_name else "") + tle.text or tle.name != want_name:
         raise Violation("writer:name", f"name {tle.name!r}, expected {want_name!r}")
     worst = [0.0]
@@ -436,7 +529,11 @@ def check_writer(case):
             # 5 significant digits of the value itself
             digit = Fraction(10) ** (math.floor(math.log10(abs(v))) - 4)
             near(name, got, v, max(ulp, digit))
-    if p["cat"] != meta["norad"] or p["cospar"] != cospar or p["elnum"] != meta["elnum"] or p["rev"] != meta["rev"]:
+    absent = meta["via"] == "absent"
+    if absent:
+        cospar = ""
+    if (p["cat"] != meta["norad"] and not absent) or p["cospar"] != cospar or p["elnum"] != meta["elnum"] \
+            or p["rev"] != meta["rev"]:
         raise Violation("writer:metadata", f"catalogue/designator/element/revolution numbers not those given: {lines}")
     if p["cls"] != "U" or p["etype"] != 0:
         raise Violation("writer:metadata", f"classification {p['cls']!r} type {p['etype']}")
@@ -449,11 +546,13 @@ def check_writer(case):
                                   (True, True, False, True, True, False)):
         near(f"parse-back-{nm}", b, w, ulp, angle=ang)
     for nm, got, want in (("element_nb", tle.element_nb, meta["elnum"]), ("revolutions", tle.revolutions, meta["rev"]),
-                          ("norad_id", tle.norad_id, meta["norad"]), ("cospar_id", tle.cospar_id, cospar)):
+                          ("norad_id", tle.norad_id, p["cat"] if absent else meta["norad"]),
+                          ("cospar_id", tle.cospar_id, cospar)):
         if got != want:
             raise Violation(f"writer:parse-back-{nm}", f"{nm} given as {want!r}, read back from the written text "
                             f"as {got!r}; lines {lines}")
-    cls = [f"form:{case['form']}", f"frame:{case['frame']}", f"scale:{scale}", f"epoch:{case.get('eclass', 'uniform')}"]
+    cls = [f"form:{case['form']}", f"frame:{case['frame']}", f"scale:{scale}", f"epoch:{case.get('eclass', 'uniform')}",
+           f"ids:{meta['via']}", f"propagator:{meta.get('propagator', 'Sgp4')}"]
     if el["e"] > 0.9:
         cls.append("e>0.9")
     if any(359.99995 <= deg[k] % 360 < 360 for k in (1, 3, 4)):
@@ -577,9 +676,15 @@ def fs_case(draw):
             cor = dict(kind=FS_KINDS[q % 7], line=q // 7 % 2, pos=draw(st.integers(0, 999)),
                        val=draw(st.integers(0, 8)))
         entries.append(dict(tle=f, corrupt=cor))
-    filler = draw(st.lists(st.tuples(st.integers(0, 3 * n), st.sampled_from(["", "   ", "# comment", "#1 25544U", "\t"])),
-                           max_size=4))
-    return dict(entries=entries, three=three, filler=[list(x) for x in filler],
+    comments = draw(st.sampled_from(["default", "default", "#", ";", "%", "REM"]))
+    mark = "#" if comments == "default" else comments
+    for ent in entries:
+        nm = ent["tle"].get("name")
+        if nm and nm.startswith(mark):
+            ent["tle"]["name"] = "X" + nm  # a name line must not read as a comment
+    filler = draw(st.lists(st.tuples(st.integers(0, 3 * n), st.sampled_from(["", "   ", f"{mark} comment", f"{mark}1 25544U",
+                                                                              "\t"])), max_size=4))
+    return dict(entries=entries, three=three, filler=[list(x) for x in filler], comments=comments,
                 error=draw(st.sampled_from(["warn", "ignore", "raise", "default"])),
                 trailing_newline=draw(st.booleans()))
 
@@ -669,8 +774,11 @@ def check_from_string(case):
     from beyond.io.tle import Tle, TleParseError
 
     text, notes = build_text(case)
-    expected, damaged, vis = reference_reading(text)
+    comments = case.get("comments", "default")
+    expected, damaged, vis = reference_reading(text, "#" if comments == "default" else comments)
     kw = {} if case["error"] == "default" else {"error": case["error"]}
+    if comments != "default":
+        kw["comments"] = comments
     got = []
     raised = None
     try:
@@ -711,7 +819,7 @@ def check_from_string(case):
             for t, e in zip(got, expected):
                 if e[0] is not None and t.name != e[0]:
                     raise Violation("from_string:name", f"entry named {t.name!r}, its name line says {e[0]!r}")
-    cls = ["3-line" if case["three"] else "2-line", f"error:{case['error']}"]
+    cls = ["3-line" if case["three"] else "2-line", f"error:{case['error']}", f"comments:{comments}"]
     cls += sorted({f"cor:{e['corrupt']['kind']}" for e in case["entries"] if e["corrupt"]})
     if len(expected) > sum(1 for e in case["entries"] if not e["corrupt"]):
         cls.append("cross-entry-pair")
@@ -978,10 +1086,10 @@ FINDINGS = {
 FACETS = [
     Facet("text_roundtrip", lambda s, t: rt_case(), check_text_roundtrip, setup=_eop,
           rule="element number >= 1000 or ndot < 0 or exponent outside -3..-5 or empty designator",
-          quick=(6, 900), thorough=(16, 10000)),
+          quick=(6, 700), thorough=(16, 10000)),
     Facet("fields", lambda s, t: fields_case(), check_fields, setup=_eop,
           rule="same rule; two thirds of the cases use non-canonical legal encodings",
-          quick=(6, 700), thorough=(16, 8000)),
+          quick=(6, 600), thorough=(16, 8000)),
     Facet("writer", lambda s, t: writer_case(), check_writer, setup=_eop,
           rule="every case (orbit + metadata drawn as floats, not on the print grid in 3 of 4 cases; date labelled "
                "UTC/TT/TDB/GPS/TAI/UT1; 5 of 8 epochs within 140 s of the turn of the year / a UTC midnight / on day 366)",
@@ -996,7 +1104,7 @@ FACETS = [
           quick=(8, 40), thorough=(16, 400)),
     Facet("from_string", lambda s, t: fs_case(), check_from_string, setup=_eop,
           rule="at least one damaged line and one valid entry in the text",
-          quick=(8, 250), thorough=(16, 3000)),
+          quick=(8, 200), thorough=(16, 3000)),
     Facet("history", lambda s, t: hist_case(), check_history, setup=_eop,
           rule="at least one previously returned orbit was edited in place; after every operation orbit() must be a "
                "fresh object, equal to the first result bit for bit, and write back to the TLE's own text",
